@@ -37,17 +37,17 @@ theorem header1 (g : Guards) (oid : Bytes) :
     ctrlHeader g (Spec.seq [Spec.octet oid]) = .ok (oid, false, none) := by
   simp [ctrlHeader, ctrlTypeOf, valueOf_octet, bind, pure]
 
-theorem header2b (g : Guards) (oid : Bytes) (b : Bool) :
-    ctrlHeader g (Spec.seq [Spec.octet oid, Spec.bool b]) = .ok (oid, b, none) := by
-  simp [ctrlHeader, ctrlTypeOf, valueOf_octet, valueOf_bool, bind, pure]
+theorem header2b (g : Guards) (tt : UInt8) (htt : tt ≠ 0) (oid : Bytes) (b : Bool) :
+    ctrlHeader g (Spec.seq [Spec.octet oid, Spec.bool tt b]) = .ok (oid, b, none) := by
+  simp [ctrlHeader, ctrlTypeOf, valueOf_octet, valueOf_bool tt htt, bind, pure]
 
 theorem header2v (g : Guards) (oid v : Bytes) :
     ctrlHeader g (Spec.seq [Spec.octet oid, Spec.octet v]) = .ok (oid, false, some (Spec.octet v)) := by
   simp [ctrlHeader, ctrlTypeOf, valueOf_octet, bind, pure]
 
-theorem header3 (g : Guards) (oid v : Bytes) (b : Bool) :
-    ctrlHeader g (Spec.seq [Spec.octet oid, Spec.bool b, Spec.octet v]) = .ok (oid, b, some (Spec.octet v)) := by
-  simp [ctrlHeader, ctrlTypeOf, valueOf_octet, valueOf_bool, bind, pure]
+theorem header3 (g : Guards) (tt : UInt8) (htt : tt ≠ 0) (oid v : Bytes) (b : Bool) :
+    ctrlHeader g (Spec.seq [Spec.octet oid, Spec.bool tt b, Spec.octet v]) = .ok (oid, b, some (Spec.octet v)) := by
+  simp [ctrlHeader, ctrlTypeOf, valueOf_octet, valueOf_bool tt htt, bind, pure]
 
 theorem decodeControl_of_header (env : Env) (g : Guards) (n : Node) (ty crit v)
     (h : ctrlHeader g n = .ok (ty, crit, v)) : decodeControl env g n = ctrlDispatch env g ty crit v := by
@@ -141,9 +141,9 @@ theorem wf_int (ext) (i : Int) (h : Int64 i) : (Spec.int 2 i).WF ext := by
 theorem wf_octet (ext) (s : Bytes) (h : s.length ≤ maxPrim) : (Spec.octet s).WF ext :=
   ⟨by omega, by omega, h, by simp [primOK]⟩
 
-theorem decode_paging (env : Env) (g : Guards) (size : Nat) (cookie : Bytes)
+theorem decode_paging (env : Env) (g : Guards) (tt : UInt8) (size : Nat) (cookie : Bytes)
     (hs : size < 2^32) (hc : cookie.length < 2^31 - 64) :
-    decodeControl env g (encodeCtl (.paging size cookie)) = .ok (.paging size cookie) := by
+    decodeControl env g (encodeCtl tt (.paging size cookie)) = .ok (.paging size cookie) := by
   have hi : Int64 (size : Int) := by constructor <;> omega
   have hcl : cookie.length ≤ maxPrim := by simp [maxPrim]; omega
   have hw : (Spec.seq [Spec.int 2 size, Spec.octet cookie]).WF env.ext := by
@@ -189,8 +189,8 @@ theorem decode_behera_warning (env : Env) (g : Guards) (tag : Nat) (v : Int) (ht
   rcases ht with rfl | rfl <;>
     simp [beheraLoop, parseInt64_encodeInteger v hi, pure]
 
-theorem decode_behera_error (env : Env) (g : Guards) (e : Nat) (he : e ≤ 8) :
-    decodeControl env g (encodeCtl (.beheraError e)) = .ok (.behera (-1) (-1) e) := by
+theorem decode_behera_error (env : Env) (g : Guards) (tt : UInt8) (e : Nat) (he : e ≤ 8) :
+    decodeControl env g (encodeCtl tt (.beheraError e)) = .ok (.behera (-1) (-1) e) := by
   have hwp : (Node.prim 2 1 [e.toUInt8]).WF env.ext :=
     wf_prim_ctx _ 2 1 _ (by omega) (by omega) (by simp [maxPrim])
   have hlp := ser_prim_length_le 2 1 [e.toUInt8] (by omega) (by have : ([e.toUInt8] : Bytes).length = 1 := rfl; omega)
@@ -204,8 +204,8 @@ theorem decode_behera_error (env : Env) (g : Guards) (e : Nat) (he : e ≤ 8) :
   simp [beheraLoop, hb, this, toInt8_small e he, pure]
 
 /-- every control kind, in the request direction -/
-theorem decodeControl_encodeCtl (env : Env) (g : Guards) (c : CCtl) (hw : c.WF) :
-    decodeControl env g (encodeCtl c) = .ok (expectedCtl decimalOf c) := by
+theorem decodeControl_encodeCtl (env : Env) (g : Guards) (tt : UInt8) (htt : tt ≠ 0) (c : CCtl) (hw : c.WF) :
+    decodeControl env g (encodeCtl tt c) = .ok (expectedCtl decimalOf c) := by
   cases c with
   | generic oid crit ex v =>
     simp only [CCtl.WF] at hw
@@ -214,10 +214,10 @@ theorem decodeControl_encodeCtl (env : Env) (g : Guards) (c : CCtl) (hw : c.WF) 
     · have : v = [] := by simpa using hv
       subst this
       simp only [hce, hv, if_true, List.append_nil, List.cons_append, List.nil_append]
-      rw [decodeControl_of_header env g _ _ _ _ (header2b g _ _), dispatch_generic _ _ _ _ _ hw]
+      rw [decodeControl_of_header env g _ _ _ _ (header2b g tt htt _ _), dispatch_generic _ _ _ _ _ hw]
       simp [decodeGeneric, pure]
     · simp only [hce, hv, if_true, List.cons_append, List.nil_append, Bool.false_eq_true, if_false]
-      rw [decodeControl_of_header env g _ _ _ _ (header3 g _ _ _), dispatch_generic _ _ _ _ _ hw]
+      rw [decodeControl_of_header env g _ _ _ _ (header3 g tt htt _ _ _), dispatch_generic _ _ _ _ _ hw]
       simp [decodeGeneric, valueOf_octet, pure]
     · have : v = [] := by simpa using hv
       subst this
@@ -233,11 +233,11 @@ theorem decodeControl_encodeCtl (env : Env) (g : Guards) (c : CCtl) (hw : c.WF) 
     simp only [encodeCtl, expectedCtl]
     by_cases hce : (crit || ex) = true
     · simp only [hce, if_true, List.cons_append, List.nil_append]
-      rw [decodeControl_of_header env g _ _ _ _ (header2b g _ _), dispatch_dsait]
+      rw [decodeControl_of_header env g _ _ _ _ (header2b g tt htt _ _), dispatch_dsait]
     · have hc : crit = false := by cases crit <;> simp_all
       simp only [hce, List.append_nil, Bool.false_eq_true, if_false]
       rw [decodeControl_of_header env g _ _ _ _ (header1 g _), dispatch_dsait, hc]
-  | paging size cookie => exact decode_paging env g size cookie hw.1 hw.2
+  | paging size cookie => exact decode_paging env g tt size cookie hw.1 hw.2
   | beheraEmpty =>
     rw [encodeCtl, decodeControl_of_header env g _ _ _ _ (header1 g _), dispatch_behera]
     simp [decodeBehera, expectedCtl, pure]
@@ -247,7 +247,7 @@ theorem decodeControl_encodeCtl (env : Env) (g : Guards) (c : CCtl) (hw : c.WF) 
   | beheraGrace e =>
     have := decode_behera_warning env g 1 e (Or.inr rfl) hw
     simpa [encodeCtl, expectedCtl] using this
-  | beheraError e => simpa [expectedCtl] using decode_behera_error env g e hw
+  | beheraError e => simpa [expectedCtl] using decode_behera_error env g tt e hw
   | vchuMustChange =>
     rw [encodeCtl, decodeControl_of_header env g _ _ _ _ (header1 g _), dispatch_vchuMust]; rfl
   | vchuWarning ds =>
@@ -262,12 +262,12 @@ theorem decodeControl_encodeCtl (env : Env) (g : Guards) (c : CCtl) (hw : c.WF) 
     rw [encodeCtl, decodeControl_of_header env g _ _ _ _ (header1 g _), dispatch_msTTL]; rfl
 
 /-- any number of controls, in any order -/
-theorem decodeControls_encode (env : Env) (g : Guards) (cs : List CCtl) (hw : ∀ c ∈ cs, c.WF) :
-    decodeControls env g (cs.map encodeCtl) = .ok (cs.map (expectedCtl decimalOf)) := by
+theorem decodeControls_encode (env : Env) (g : Guards) (tt : UInt8) (htt : tt ≠ 0) (cs : List CCtl) (hw : ∀ c ∈ cs, c.WF) :
+    decodeControls env g (cs.map (encodeCtl tt)) = .ok (cs.map (expectedCtl decimalOf)) := by
   induction cs with
   | nil => simp [decodeControls]
   | cons c cs ih =>
-    have h1 := decodeControl_encodeCtl env g c (hw c (by simp))
+    have h1 := decodeControl_encodeCtl env g tt htt c (hw c (by simp))
     have h2 := ih (fun c hc => hw c (by simp [hc]))
     simp [decodeControls, h1, h2, bind, pure]
 
